@@ -1,11 +1,11 @@
 SPECIFICATION Spec
 CONSTANTS
   Modes = {"ttl", "range", "serial"}
-  N2 <- TN2
-  C2 <- TC2
-  N3 <- TN3
+  N2 <- MN2
+  C2 <- MC2
+  N3 <- QN3
   C3 <- TC3
-  RTok <- TRTok
+  RTok <- MRTok
   RLen = 5
   RLongTok <- TRLong
   SBits <- AllBits
